@@ -300,8 +300,23 @@ class SourceFile:
             return out
         n = len(want)
         i = lo
+
+        def match_at(i):
+            # identifiers written __w1, __w2, .. in the fragment stand for ANY identifier (bound consistently):
+            # closure parameters and loop variables may be renamed without losing the anchor
+            env = {}
+            for k in range(n):
+                w, t = want[k], self.toks[i + k]
+                if w.startswith("__w") and w[3:].isdigit():
+                    if t.kind != "ident":
+                        return False
+                    if env.setdefault(w, t.text) != t.text:
+                        return False
+                elif t.text != w:
+                    return False
+            return True
         while i + n <= hi:
-            if self.toks[i].text == want[0] and all(self.toks[i + k].text == want[k] for k in range(n)):
+            if match_at(i):
                 out.append((i, i + n - 1))
                 i += n
             else:
